@@ -129,6 +129,7 @@ class Interp:
         self.in_spec = 0
         self.frames = []
         self.effects = []
+        self.rand_log = []      # uniform draws of random.Random().random() on this path, in program order
         ops.set_raise_hook(self._raise_hook)
         ops._card_hook = self._card_of
 
@@ -1524,6 +1525,7 @@ class Interp:
             self.assume_lemmas(spec.get('lemmas', []), fr)
             var0 = self.eval_variant(spec, fr)
             pre_env = dict(fr.env)
+            mark = len(self.rand_log)
             try:
                 self.exec_block(s.body, fr)
             except ContinueEx:
@@ -1532,6 +1534,9 @@ class Interp:
                 return
             self.check_promotion(s, fr, o)
             self.check_invariants(spec, fr, tag, 'preserve', s.lineno)
+            # draw(k): the k-th uniform random number drawn by THIS function during this iteration (callees under contract do not count)
+            log = list(self.rand_log[mark:])
+            self.spec_env['draw'] = lambda k: log[k] if k < len(log) else (_ for _ in ()).throw(Unsupported('draw(%d): fewer draws in this iteration' % k))
             # transition clauses: relate the state at the head of an iteration (pre('x')) to the state at its back edge
             for n, tr in enumerate(spec.get('transition', [])):
                 saved = self.spec_env.get('pre')
@@ -1726,6 +1731,8 @@ class Interp:
             return {k: self.fresh_like(x, '%s[%s]' % (name, k)) for k, x in v.items()}
         if v is None:
             raise Unsupported('cannot havoc %s (None before the loop): give a type in the loop spec' % name)
+        if isinstance(v, Opaque) and v.what == 'time':
+            return Opaque('time')       # a clock reading stays a clock reading (its value is never looked at)
         return Opaque('havoc:' + name)
 
     def havoc_loop(self, s, fr, o, spec):
